@@ -13,6 +13,7 @@ CONSTANTS
  DeclSet = {1, 3}
  MaxDefs = 1
  Vias = {"exec"}
+ Rush = FALSE
  Acts = {"define", "del", "rebind", "close", "unload", "call"}
 VIEW View
 INVARIANT ActiveIffReferencedAndLoaded
